@@ -8,6 +8,7 @@ package main
 import (
 	"bytes"
 	"fmt"
+	"os"
 	"strings"
 	"time"
 )
@@ -23,6 +24,16 @@ func streamSizes() {
 		pads = append(pads, 34_000_000, 68_000_000)
 		textPads[17_000_000] = true
 		textPads[34_000_000] = true
+	}
+	// an obligation about how input is read no longer checks: look for a length at which the result changes
+	escalate := os.Getenv("CRD_ESCALATE") != ""
+	slow := time.Duration(1)
+	if escalate {
+		pads = []int{70_000, 1_100_000, 17_000_000, 34_000_000, 68_000_000, 136_000_000, 272_000_000}
+		for _, n := range pads[:6] {
+			textPads[n] = true
+		}
+		slow = 10
 	}
 	type job struct {
 		name string
@@ -64,14 +75,14 @@ func streamSizes() {
 				}
 				jobs = append(jobs, job{fmt.Sprintf("text-%s-%d", kind, n), func() []string {
 					plain := runCrd([]byte(a+" "+b), 60*time.Second, cmd...)
-					long := runCrd(append(append([]byte(a), pad...), []byte(b)...), 120*time.Second, cmd...)
+					long := runCrd(append(append([]byte(a), pad...), []byte(b)...), slow*120*time.Second, cmd...)
 					desc := fmt.Sprintf("crd %s on %q + %d bytes of %s + %q", strings.Join(cmd, " "), a, len(pad), kind, b)
 					if long.class() != plain.class() || !bytes.Equal(noPositions(cmd, long.stdout), noPositions(cmd, plain.stdout)) {
 						return v([]string{"C04", "C09", "C11"}, "a long stretch of "+kind+" between two chords changes the result", desc,
 							fmt.Sprintf("without: %s %s | with: %s %s", plain.class(), short(plain.stdout), long.class(), short(long.stdout)))
 					}
 					// a malformed tail after the stretch must still be refused
-					bad := runCrd(append(append([]byte(a), pad...), []byte("C[")...), 120*time.Second, cmd...)
+					bad := runCrd(append(append([]byte(a), pad...), []byte("C[")...), slow*120*time.Second, cmd...)
 					if bad.class() != "err" {
 						return v([]string{"C04", "C09"}, "a malformed tail after a long stretch of "+kind+" is accepted", desc+" with tail \"C[\"",
 							fmt.Sprintf("%s %s", bad.class(), short(bad.stdout)))
@@ -88,7 +99,7 @@ func streamSizes() {
 			pad := []byte("#" + strings.Repeat("x", n) + "\n")
 			jobs = append(jobs, job{fmt.Sprintf("yaml-comment-%d", n), func() []string {
 				plain := runCrd([]byte(head+tail), 60*time.Second, cmd...)
-				long := runCrd(append(append([]byte(head), pad...), []byte(tail)...), 180*time.Second, cmd...)
+				long := runCrd(append(append([]byte(head), pad...), []byte(tail)...), slow*180*time.Second, cmd...)
 				desc := fmt.Sprintf("crd %s on two instances with a %d-byte YAML comment between them", strings.Join(cmd, " "), len(pad))
 				if long.class() != plain.class() || !bytes.Equal(long.stdout, plain.stdout) {
 					return v([]string{"C09", "C10"}, "a long YAML comment between two instances changes the result", desc,
@@ -96,7 +107,7 @@ func streamSizes() {
 				}
 				if cmd[len(cmd)-1] != "parse" {
 					for _, nonsense := range []string{"- values: [\"1\"]\n  bpm: 0\n", "- values: [\"0\"]\n", "- chord: {degree: \"1\", name: \"nosuch\"}\n  values: [\"1\"]\n", "- values: [\"1\"]\n  velocity: loud\n"} {
-						bad := runCrd(append(append([]byte(head), pad...), []byte(nonsense)...), 180*time.Second, cmd...)
+						bad := runCrd(append(append([]byte(head), pad...), []byte(nonsense)...), slow*180*time.Second, cmd...)
 						if bad.class() != "err" {
 							return v([]string{"C09"}, "nonsense after a long YAML comment is accepted", desc+" followed by "+nonsense,
 								fmt.Sprintf("%s %s", bad.class(), short(bad.stdout)))
@@ -146,7 +157,11 @@ func streamSizes() {
 	}
 	results := make([][]string, len(jobs))
 	// the big inputs are memory-hungry: a few at a time
-	sem := make(chan struct{}, 4)
+	width := 4
+	if escalate {
+		width = 2
+	}
+	sem := make(chan struct{}, width)
 	parallel(len(jobs), func(i int) {
 		sem <- struct{}{}
 		results[i] = jobs[i].run()
